@@ -558,4 +558,5 @@ harnesses! {
     c02_l2_dw { prop: C02, feat: "c02", tier: quick, mode: leaf, unwind: 18, caps: "drop=1" } => |s| c06::data_w(s, 2, 0);
     c02_l2_dd { prop: C02, feat: "c02", tier: thorough, mode: leaf, unwind: 18, caps: "drop=1" } => |s| c06::data_w(s, 4, 0);
     c02_l2_dq { prop: C02, feat: "c02", tier: thorough, mode: leaf, unwind: 18, caps: "drop=1" } => |s| c06::data_w(s, 8, 0);
+    c07_hex_4k { prop: C07, feat: "c07", tier: quick, mode: hex, unwind: 270, caps: "" } => |s| c07::hex_big(s, 4090, 4100);
 }
